@@ -64,6 +64,9 @@ const S: &[&str] = &["search"];
 const D: &[&str] = &["discover"];
 const X: &[&str] = &["export"];
 const NONE: &[&str] = &[];
+/// an Epistemic Projection asks for `project` on top of `read`, wherever in
+/// the WHERE block the BELIEF pattern sits (gate.rs docs)
+const RP: &[&str] = &["read", "project"];
 
 /// Items that repeat a clause family another item already covers; they run
 /// in the thorough tier only.
@@ -73,6 +76,8 @@ pub const THOROUGH_ONLY: &[&str] = &[
     "search-readable-name", "search-props", "history-space-page2", "changes-page", "describe-space",
     "list-types", "describe-type", "snapshot", "export-props", "export-root-readable",
     "preview-update-hidden", "preview-ensure-hidden-endpoint",
+    "belief-union-in-optional", "belief-optional-in-optional", "belief-not-in-optional", "belief-optional-in-not",
+    "belief-tuple", "belief-tuple-optional", "belief-slot-union", "belief-slot-not", "belief-slot-optional-in-union",
 ];
 
 pub fn battery_for(quick: bool) -> Vec<Item> {
@@ -151,6 +156,34 @@ pub fn battery() -> Vec<Item> {
     ] {
         v.push(Item { probe, ..it(label, "PREVIEW", r#"PREVIEW KML :cmd"#, R, SameAsAbsent) });
     }
+
+    // Epistemic Projection: flat and under every block nesting. Without
+    // `project` the command gate refuses every one of them alike; with it the
+    // belief is built from the Assertions the reader may read.
+    const PB: &str = r#"?p PROPOSITION (?s, "prefers", ?o) ?b BELIEF (?p)"#;
+    const SL: &str = r#"?sl BELIEF SLOT (:a, "prefers")"#;
+    let belief: Vec<(&'static str, &'static str, String)> = vec![
+        ("belief-flat", "BELIEF", format!("FIND(?p.id, ?b.status, ?b.support.assertion_ids, ?b.opposition.assertion_ids) WHERE {{ {PB} }}")),
+        ("belief-optional", "BELIEF_OPTIONAL", format!("FIND(?b.status) WHERE {{ OPTIONAL {{ {PB} }} }}")),
+        ("belief-union", "BELIEF_UNION", format!("FIND(?b.status) WHERE {{ UNION {{ {PB} }} }}")),
+        ("belief-not", "BELIEF_NOT", format!(r#"FIND(?c.id) WHERE {{ ?c CONCEPT {{type: "Person"}} NOT {{ ?p PROPOSITION (?c, "prefers", ?o) ?b BELIEF (?p) }} }}"#)),
+        ("belief-optional-in-union", "BELIEF_OPTIONAL", format!("FIND(?b.status) WHERE {{ UNION {{ OPTIONAL {{ {PB} }} }} }}")),
+        ("belief-union-in-optional", "BELIEF_OPTIONAL", format!("FIND(?b.status) WHERE {{ OPTIONAL {{ UNION {{ {PB} }} }} }}")),
+        ("belief-optional-in-optional", "BELIEF_OPTIONAL", format!("FIND(?b.status) WHERE {{ OPTIONAL {{ OPTIONAL {{ {PB} }} }} }}")),
+        ("belief-not-in-optional", "BELIEF_OPTIONAL", format!(r#"FIND(?c.id) WHERE {{ ?c CONCEPT {{type: "Person"}} OPTIONAL {{ NOT {{ ?p PROPOSITION (?c, "prefers", ?o) ?b BELIEF (?p) }} }} }}"#)),
+        ("belief-optional-in-not", "BELIEF_NOT", format!(r#"FIND(?c.id) WHERE {{ ?c CONCEPT {{type: "Person"}} NOT {{ OPTIONAL {{ ?p PROPOSITION (?c, "prefers", ?o) ?b BELIEF (?p) }} }} }}"#)),
+        ("belief-tuple", "BELIEF", r#"FIND(?b.status) WHERE { ?b BELIEF (:a, "prefers", :bob) }"#.to_string()),
+        ("belief-tuple-optional", "BELIEF_OPTIONAL", r#"FIND(?b.status) WHERE { OPTIONAL { ?b BELIEF (:a, "prefers", :bob) } }"#.to_string()),
+        ("belief-slot-flat", "BELIEF_SLOT", format!("FIND(?sl.accepted_values, ?sl.contested, ?sl.leading) WHERE {{ {SL} }}")),
+        ("belief-slot-optional", "BELIEF_SLOT_OPTIONAL", format!("FIND(?sl.accepted_values, ?sl.contested) WHERE {{ OPTIONAL {{ {SL} }} }}")),
+        ("belief-slot-union", "BELIEF_SLOT_UNION", format!("FIND(?sl.accepted_values, ?sl.contested) WHERE {{ UNION {{ {SL} }} }}")),
+        ("belief-slot-not", "BELIEF_SLOT_NOT", format!(r#"FIND(?c.id) WHERE {{ ?c CONCEPT {{type: "Person"}} NOT {{ {SL} }} }}"#)),
+        ("belief-slot-optional-in-union", "BELIEF_SLOT_OPTIONAL", format!("FIND(?sl.contested) WHERE {{ UNION {{ OPTIONAL {{ {SL} }} }} }}")),
+    ];
+    for (label, family, text) in belief {
+        // templates are 'static: the battery is built once per process
+        v.push(it(label, family, Box::leak(text.into_boxed_str()), RP, Eq));
+    }
     let changes_page = Item { seq_cursor: true, ..it("changes-page", "CHANGES", r#"CHANGES AFTER SEQ 0 LIMIT 2"#, RH, Eq) };
     v.push(changes_page);
     v
@@ -161,6 +194,7 @@ fn absent_id(kind: Kind) -> &'static str {
     match kind {
         Kind::Concept => "C-9999",
         Kind::Proposition => "P-9999",
+        Kind::Assertion => "A-9999",
     }
 }
 
@@ -198,6 +232,10 @@ fn params_for(item: &Item, built: &Built) -> Option<Map<String, Json>> {
         "tuple-fixed-hidden" => {
             m.insert("s".into(), serde_json::json!({"id": render("{Cat}", built)}));
         }
+        l if l.starts_with("belief-") => {
+            m.insert("a".into(), serde_json::json!({"id": render("{Ann}", built)}));
+            m.insert("bob".into(), serde_json::json!({"id": render("{Bob}", built)}));
+        }
         _ => return None,
     }
     Some(m)
@@ -206,14 +244,24 @@ fn params_for(item: &Item, built: &Built) -> Option<Map<String, Json>> {
 const VOLATILE: &[&str] = &[
     "created_at", "updated_at", "committed_at", "created_tx", "updated_tx", "tx_id", "space_seq",
     "snapshot_seq", "seq", "index_seq", "current_space_seq", "target_seq", "snapshot_token",
-    "content_digest", "nexus_id", "integrity", "origin",
+    "content_digest", "nexus_id", "integrity", "origin", "asserted_at", "valid_at",
 ];
 
 fn canon_value(v: &Json, built: &Built, scores: &mut Vec<f64>, top: bool) -> Json {
     match v {
         Json::String(s) => match built.key_of.get(s) {
             Some(key) => Json::String(format!("\u{ab}{key}\u{bb}")),
-            None => Json::String(s.clone()),
+            None => {
+                // an id at the end of a composite key ("id<sep>C-1")
+                for (id, key) in &built.key_of {
+                    if let Some(head) = s.strip_suffix(id.as_str()) {
+                        if head.chars().next_back().is_some_and(|c| !c.is_ascii_alphanumeric() && c != '-') {
+                            return Json::String(format!("{head}\u{ab}{key}\u{bb}"));
+                        }
+                    }
+                }
+                Json::String(s.clone())
+            }
         },
         Json::Array(items) => Json::Array(items.iter().map(|i| canon_value(i, built, scores, true)).collect()),
         Json::Object(map) => {
